@@ -43,6 +43,17 @@ func (ss *SlotScope) SetSlot(name string, content *SlotContent) {
 	ss.Slots[name] = content
 }
 
+// evaluateSlotNodes evaluates a private deep copy of supplied slot content: the
+// supplied nodes are shared by every use of the slot, so they are never linked
+// into the output themselves, and every use is evaluated in the current scope.
+func (v *Vue) evaluateSlotNodes(ctx VueContext, nodes []*html.Node) ([]*html.Node, error) {
+	clones := make([]*html.Node, 0, len(nodes))
+	for _, n := range nodes {
+		clones = append(clones, helpers.DeepCloneNode(n))
+	}
+	return v.evaluate(ctx, clones, 0)
+}
+
 // evalSlot processes a <slot> element and inserts the appropriate content.
 // If slot content was provided by the component user, use that.
 // Otherwise, render the fallback content (children of the slot element).
@@ -108,8 +119,12 @@ func (v *Vue) evalSlot(ctx VueContext, node *html.Node, slotScope *SlotScope) ([
 				}
 				result = append(result, children...)
 			} else {
-				// Use the provided content as-is
-				result = append(result, slotContent.Nodes...)
+				// Evaluate a private copy of the provided content
+				evaluated, err := v.evaluateSlotNodes(ctx, slotContent.Nodes)
+				if err != nil {
+					return nil, err
+				}
+				result = append(result, evaluated...)
 			}
 
 			return result, nil
@@ -120,8 +135,8 @@ func (v *Vue) evalSlot(ctx VueContext, node *html.Node, slotScope *SlotScope) ([
 	if inheritedSlotScopeData, ok := ctx.stack.EnvMap()["__slotScope__"]; ok {
 		if inheritedSlotScope, ok := inheritedSlotScopeData.(*SlotScope); ok {
 			if slotContent := inheritedSlotScope.GetSlot(slotName); slotContent != nil {
-				// Use the inherited slot content directly (already parsed as DOM nodes)
-				return slotContent.Nodes, nil
+				// Evaluate a private copy of the inherited slot content
+				return v.evaluateSlotNodes(ctx, slotContent.Nodes)
 			}
 		}
 	}
